@@ -76,6 +76,11 @@ def histories(rng, tier):
                 path = rng.choice(['pix', 'getitem_arr', 'getitem_int'])
                 k = 1 if path == 'getitem_int' else min(3, len(written))
                 h.append('get m pix=%s path=%s' % (','.join(map(str, rng.sample(written, k))), path))
+            if written and rng.random() < 0.5:
+                # the per-pixel validity mask of the record map itself (primary != sentinel: values BELOW a custom
+                # sentinel are valid — seeded change C14g), by pixel and by position
+                qs = rng.sample(written, min(4, len(written))) + gen.rand_pixels(rng, c, n=2)
+                h.append('get m pix=%s path=%s vm=1' % (','.join(map(str, qs)), rng.choice(['pix', 'pix', 'pos'])))
         out.append(h)
     return out
 
